@@ -37,6 +37,13 @@
   * `call_ofBox`: a box seen as a one-box diagram evaluates to `F(box)` (the `Box` branch of
     `__call__`, tensor.py:356-361, agrees with the loop).
   * `functor_eval_type`, `functor_ty_monoidal`, `obj_to_dim_ignores_z`.
+  * `functor_box_eq_one_box_diagram`: for EVERY genuine box, swaps included, the loop on the one-box
+    diagram returns the defining tensor `F(box)`; `functor_swap_box_type`: for a bare swap that is
+    `Tensor.swap(F(left), F(right)) : F(left) @ F(right) → F(right) @ F(left)`.
+  * `eval_empty_sum_typed`, `eval_sum_typed` (Model/TensorSum.lean: the `Sum` branch,
+    tensor.py:338-340, as the left fold of `Tensor.__add__` from `Tensor.zeros`): the image of a
+    formal sum has the image types; for no term it is the well-formed zero tensor.  (That the
+    array of a sum WITH terms is the entrywise sum rests on the oracle of the harness.)
 
   * `eval_invariant_interchange`, `eval_invariant_normal_form`: if `F(d)` is defined then
     `F(d.interchange(i, j, left))` and `F(d.normal_form(left))` (monoidal.Diagram.normalize /
@@ -78,6 +85,7 @@
 -/
 import Proofs.TensorInterchange
 import Proofs.TensorBubble
+import Proofs.TensorSum
 import Proofs.GaussInt
 
 namespace DV.C09
@@ -172,6 +180,54 @@ theorem functor_eval_type (F : TFunctor R) (d : Diagram) (t : Tensor R) (h : F.c
   split at h
   · cases h
   · exact mk?_ok h
+
+/-! ### bare boxes, formal sums -/
+
+/-- **The functor on a bare box = the functor on its one-box diagram**, for EVERY genuine box,
+    swaps included.  `TFunctor.box` is the defining tensor (`Tensor.swap(F(left), F(right))` with
+    `left, right = box.dom[:1], box.dom[1:]` for a `Swap`; `Tensor.cups/caps`; the array or the
+    adjoint of the array of a generator); `call (ofBox b)` is the loop of tensor.py:365-391 run on
+    `Diagram(b.dom, b.cod, [b], [0])` — which is what discopy does with a `Swap` object handed to
+    the functor (it is excluded from the `Box` branch, tensor.py:356-357).  A special case for bare
+    swaps that exchanges the roles of the two wires would break this equality whenever
+    `F(left) ≠ F(right)` (the example below has `[3]` and `[2]`). -/
+theorem functor_box_eq_one_box_diagram (F : TFunctor R) (b : Box) (hb : Genuine b) :
+    F.call (Diagram.ofBox b) = F.box b := by
+  have hok : BoxOK F b := TFunctor.boxOK_of_genuine F b hb
+  rw [call_eq_layerwise F _ (Diagram.ofBox_wf b)
+    (fun b' hb' => by
+      have : b' = b := by simpa [Diagram.ofBox] using hb'
+      rw [this]; exact hb.1)
+    (fun b' hb' => by
+      have : b' = b := by simpa [Diagram.ofBox] using hb'
+      rw [this]; exact hok)]
+  exact layerwise_ofBox F b hok
+
+/-- The tensor of a bare genuine swap box: type `F(left) @ F(right) → F(right) @ F(left)`. -/
+theorem functor_swap_box_type (F : TFunctor R) (b : Box) (hk : b.kind = .swap) (hb : Genuine b)
+    (t : Tensor R) (h : F.call (Diagram.ofBox b) = .ok t) :
+    t = Tensor.swap (F.ty (pySlice b.dom none (some 1))) (F.ty (pySlice b.dom (some 1) none)) ∧
+      t.dom = F.ty b.dom ∧ t.cod = F.ty b.cod := by
+  rw [functor_box_eq_one_box_diagram F b hb] at h
+  have hty := TFunctor.boxOK_of_genuine F b hb t h
+  simp only [TFunctor.box, hk] at h
+  cases h
+  exact ⟨rfl, hty.2.1, hty.2.2⟩
+
+/-- **The image of the empty formal sum is the zero tensor of the image types**
+    (tensor.py:338-340, `sum(map(self, diagram), Tensor.zeros(dom, cod))` with no term): a
+    well-formed `Tensor` with `dom = F(dom)`, `cod = F(cod)`, every entry zero — not a bare `0`. -/
+theorem eval_empty_sum_typed [DecidableEq R] (F : TFunctor R) (dom cod : Ty) :
+    ∃ t, F.callSum dom cod [] = .ok t ∧ t.dom = F.ty dom ∧ t.cod = F.ty cod ∧ t.WF ∧
+      ∀ x ∈ t.arr.data.toList, x = 0 :=
+  ⟨Tensor.zeros (F.ty dom) (F.ty cod), TFunctor.callSum_nil F dom cod, rfl, rfl,
+    Tensor.zeros_wf _ _, Tensor.zeros_data _ _⟩
+
+/-- The image of a formal sum with any number of terms, when defined, has the image types. -/
+theorem eval_sum_typed [DecidableEq R] (F : TFunctor R) (dom cod : Ty) (terms : List Diagram)
+    (t : Tensor R) (h : F.callSum dom cod terms = .ok t) :
+    t.dom = F.ty dom ∧ t.cod = F.ty cod :=
+  TFunctor.callSum_type F dom cod terms t h
 
 /-! ### bubbles -/
 
@@ -306,6 +362,25 @@ example : F0.call d0 = F0.layerwise d0 :=
           | (simp [bf, bg, bsw, bcap, bcup, Box.swap, Box.cap, Box.cup] at h; done)
           | exact ⟨xb, xb.r, rfl, rfl⟩
           | rfl)
+
+/-- a bare swap box with DIFFERENT images (`b ↦ [3]`, `a ↦ [2]`) is genuine ... -/
+theorem bsw_genuine : Genuine bsw :=
+  ⟨fun _ => rfl, fun h => by simp [bsw, Box.swap] at h, fun h => by simp [bsw, Box.swap] at h⟩
+
+/-- ... and the functor on the box object is `Tensor.swap [3] [2] : [3, 2] → [2, 3]` -/
+example : F0.call (Diagram.ofBox bsw) = .ok (Tensor.swap [3] [2]) :=
+  (functor_box_eq_one_box_diagram F0 bsw bsw_genuine).trans rfl
+
+example : (Tensor.swap (R := GaussInt) [3] [2]).dom = [3, 2] ∧
+    (Tensor.swap (R := GaussInt) [3] [2]).cod = [2, 3] ∧
+    (Tensor.swap (R := GaussInt) [3] [2]) ≠ Tensor.mk' [3, 2] [2, 3] (Tensor.swap [2] [3]).arr := by
+  decide +kernel
+
+/-- the empty sum `[b] → [a, b]` under `F0`: the zero tensor `[3] → [2, 3]`, and a two-term sum -/
+example : F0.callSum [xb] [xa, xb] [] = .ok (Tensor.zeros [3] [2, 3]) := rfl
+
+set_option maxRecDepth 100000 in
+example : (F0.callSum [xa] [xa, xb] [d0, d0]).toOption.isSome = true := by decide +kernel
 
 /-! ### non-vacuity for bubbles: two bubbles around EQUAL insides with DIFFERENT functions in one
     diagram (Python's `==`/`repr` cannot tell them apart), and a bubble around that diagram
